@@ -114,6 +114,7 @@ class ArgGuard:
         self.before = {k: guards.digest(v) for k, v in named.items()}
         ArgGuard._n += 1
         self.g0 = guards.globals_digest() if ArgGuard._n % ArgGuard.GLOBALS_EVERY == 0 else None
+        self.a0 = guards.ambient_digest() if ArgGuard._n % 5 == 0 else None
 
     def changed(self):
         out = [k for k, v in self.named.items() if guards.digest(v) != self.before[k]]
@@ -121,6 +122,8 @@ class ArgGuard:
             ArgGuard.globals_checked += 1
             if guards.globals_digest() != self.g0:
                 out.append("<module globals of dsw>")
+        if self.a0 is not None and guards.ambient_digest() != self.a0:
+            out.append("<interpreter-wide state: stdlib random / cwd / environment / sys.path / limits / numpy settings>")
         return out
 
 
